@@ -439,7 +439,7 @@ def genAsMatrix (vectorizables : List NP.Sample) (length : Option Nat) : Option 
           let i0 := p1.1
           let sample0 := p1.2
           let vector0 := (NP.Sample.asVector sample0)
-          let p2 := (if (!(NP.canCastSameKind (NP.dtypeOf vector0) (NP.dtypeOf data0))) then
+          let p2 := (if (!(NP.canCastSafe (NP.dtypeOf vector0) (NP.dtypeOf data0))) then
               let data1 := (NP.TM.astype data0 (NP.promote (NP.dtypeOf data0) (NP.dtypeOf vector0)))
               data1
             else
@@ -473,7 +473,7 @@ def genAsMatrix (vectorizables : List NP.Sample) (length : Option Nat) : Option 
           let i0 := p1.1
           let sample0 := p1.2
           let vector0 := (NP.Sample.asVector sample0)
-          let p2 := (if (!(NP.canCastSameKind (NP.dtypeOf vector0) (NP.dtypeOf data0))) then
+          let p2 := (if (!(NP.canCastSafe (NP.dtypeOf vector0) (NP.dtypeOf data0))) then
               let data1 := (NP.TM.astype data0 (NP.promote (NP.dtypeOf data0) (NP.dtypeOf vector0)))
               data1
             else
